@@ -172,7 +172,8 @@ def concrete_ids_obligation(idset):
     def fn(it):
         n_checked = 0
         for perm in itertools.permutations(range(len(idset))):
-            ids = [Poly.const(idset[k]) for k in perm]            # list order = perm
+            from ..interp import int_const
+            ids = [int_const(it, idset[k]) for k in perm]            # list order = perm (Python ints)
             verts = [it.construct("Vertex", [ids[k], sym_pose("PoseR2", "p%d" % k)]) for k in range(len(ids))]
             edges = []
             for a in range(len(ids)):
@@ -392,6 +393,9 @@ def run(run_, pkg, tier):
               ("C18-B1/Graph._initialize/independent-of-earlier-graphs", "C18-B1-bind-by-id", history_obligation(), where),
               ("C18-B1/Graph._initialize/integer-ids-0..3", "C18-B1-bind-by-id", concrete_ids_obligation([0, 1, 2, 3]), where),
               ("C18-B1/Graph._initialize/integer-ids-sparse", "C18-B1-bind-by-id", concrete_ids_obligation([-5, 0, 7, 10 ** 12]), where),
+              ("C18-B1/Graph._initialize/integer-ids-contiguous-from--1", "C18-B1-bind-by-id", concrete_ids_obligation([-1, 0, 1, 2]), where),
+              ("C18-B1/Graph._initialize/integer-ids-all-negative", "C18-B1-bind-by-id", concrete_ids_obligation([-3, -2, -1]), where),
+              ("C18-B1/Graph._initialize/integer-ids-contiguous-from-1", "C18-B1-bind-by-id", concrete_ids_obligation([1, 2, 3]), where),
               ("C18-B1/Graph._initialize/invalid-edge-raises[False]", "C18-B1-validity-asserted", invalid_edge_obligation(False), where),
               ("C18-B1/Graph._initialize/invalid-edge-raises[None]", "C18-B1-validity-asserted", invalid_edge_obligation(None), where)]
     btasks = [t for t in btasks if run_.wants(t[0])]
